@@ -370,3 +370,17 @@ PROPS['C08']['functions'] = list(PROPS['C08']['functions']) + ['pysmi.codegen.sy
 
 PROPS['C02']['modules'] = PROPS['C02']['modules'] + ['harness.c11_reject']
 PROPS['C01']['bounds'] += '; table/row/column/SEQUENCE type in all 24 declaration orders'
+
+PROPS['C20']['modules'] = PROPS['C20']['modules'] + ['harness.x20']
+PROPS['C20']['files'] = list(PROPS['C20']['files']) + ['pysmi/compiler.py', 'pysmi/writer/localfile.py', 'pysmi/writer/pyfile.py', 'pysmi/reader/localfile.py', 'pysmi/reader/url.py']
+PROPS['C20']['functions'] = list(PROPS['C20']['functions']) + ['scripts/mibdump.py and scripts/mibcopy.py as whole programs (runpy, in-process), engine EXEC']
+PROPS['C20']['stubs'] = list(PROPS['C20']['stubs']) + ['EXEC conditions (C20.exec.*): no stubs - real option parsing, readers, parser, generators, writers on a real temporary directory; network borrowers replaced by an empty local directory; stand-in SNMPv2-SMI/-TC/-CONF source files']
+PROPS['C20']['outside'] = ['process start (the scripts run in-process through runpy)', 'network sources and borrowers', 'module sets beyond two modules + base modules for the whole-tool conditions',
+                           'mibcopy when shutil.copy fails', '--build-index, --cache-directory, --destination-template, searcher options of mibdump']
+MANIFEST_TEXT['C20']['technique'] = ('CrossHair symbolic execution of statement fragments of the scripts with stubbed environment (unbounded symbolic revisions / statuses) '
+                                     '+ whole-tool runs (runpy) executed concretely once per solver-explored shape of module set and options')
+MANIFEST_TEXT['C20']['level_text'] = ('Kernel level: exit code and report lines for all status assignments of <=3 modules, option handling, mibcopy keeps the latest revision for every '
+                                      'visiting order with unbounded revisions. Tool level (EXEC): for every shape of a two-module set (healthy / syntax error / semantic error / missing, '
+                                      'imported and/or requested) x format x --dry-run/--no-mib-writes/--ignore-errors/--no-dependencies the real mibdump exit status, report and '
+                                      'destination directory match the ground truth; mibcopy on real directories for every revision pair / visiting order / alias file name.')
+MANIFEST_TEXT['C20']['level_note'] = 'Trusted: CrossHair/z3; fragment location is structural (a missing fragment is a harness error). Outside: network, process start, larger module sets.'
